@@ -25,6 +25,11 @@ RULE = (
     "operated twin equals the grid model / expected content (catches symmetric corruption). Non-trivial = >= 1 mutation after "
     "cloning on an object with repeated runs and warmed caches, or on a document with unread parts or unsaved edits; distinct by "
     "case."
+    ' Also: unsaved binary edits (set_part / del_part) carry by-construction expectations checked on original and clone rig'
+    'ht after cloning; every XML part (content, styles, meta, settings, manifest) as XmlPart twins with part-specific warm-'
+    'up reads and edits, each edit visible in its own part; embedded sub-documents (Object N/content.xml) edited before clo'
+    'ning; a generator set by the user; both twins saved right after cloning must give the same package; clones of mid-tree'
+    ' nodes (paragraph in a section, inline children) keep class, XML and tail.'
 )
 ASSUMPTIONS = [
     "lib/gridmodel is the reference for the operated twin; serialisations are compared byte for byte for the untouched twin",
